@@ -34,7 +34,7 @@ PROPS = ["StatementsSeeOwnWrites", "NoDirtyReadsAct", "FailedStatementNoEffect",
 
 # which kinds of deviation from the design each property forbids (the others are reported as out-of-scope notes)
 RELEVANT = {
-    "C12": {"constraint-breach", "failed-statement-effect", "panic"},
+    "C12": {"constraint-breach", "failed-statement-effect", "panic", "stale-catalog", "catalog-mismatch"},
     "C13": {"spurious-failure", "violating-statement-accepted", "outcome", "tx-state", "query-result", "count", "generated-key",
             "table", "failed-statement-effect", "panic", "serial-order"},
 }
@@ -267,6 +267,188 @@ def report(chk, devs, who, source):
                                       "observed": d.get("observed"), "repro": "harness/cmd/c12 -script (see docs/%s.md)" % chk.pid})
 
 
+# ------------------------------------------------------------------ composite unique indexes (spec/SQLUniq.tla)
+UNIQ_HIST_ALL = {"plain", "other-updated", "after-delete", "reinserted", "other-in-tx", "own-in-tx", "null"}
+
+
+def uniq_cases(idx, hists, out):
+    text = ('CONSTANTS\n  IdxName = "%s"\n  Histories = %s\n  OutFile = "%s"\nINIT Init\nNEXT Next\nCHECK_DEADLOCK FALSE\n' % (idx, tla(hists), out))
+    res = vlib.run_tlc("SQLUniq", "uniq.cfg", workers=1, timeout=600, files=[("uniq.cfg", text)], tag="sqluniq", javaopts=JOPTS)
+    vlib.tlc_must_pass(res, "SQLUniq[%s]" % idx)
+    facts = {}
+    for line in res.out.splitlines():
+        line = line.strip()
+        if line.startswith('<<"') and line.endswith(">>"):
+            v = vlib.parse_tla(line)
+            facts[v[0]] = v[1]
+    for k in ("Refused", "Applied", "NoDuplicates"):
+        if facts.get(k) is not True:
+            raise MachineryFault("SQLUniq[%s]: model fact %s is %r" % (idx, k, facts.get(k)))
+    return res, facts.get("Cases", 0)
+
+
+def plain_report(chk, devs, prefix, source):
+    """Deviations of the directed parts (no quirk attribution: nothing is transcribed there): signature = class + where."""
+    rel = RELEVANT[chk.pid]
+    oos = chk.cov.setdefault("out_of_scope_deviations", {})
+    for d in devs:
+        sig = "%s:%s:%s" % (prefix, d["class"], re.sub(r"[^A-Za-z0-9_:=+-]+", "_", d.get("origin") or d["kind"])[:70])
+        if d["class"] not in rel:
+            key = "%s:%s" % (prefix, d["class"])
+            oos[key] = oos.get(key, 0) + 1
+            if oos[key] == 1:
+                chk.cov.setdefault("out_of_scope_samples", {})[key] = d["text"][:1200]
+            continue
+        chk.violation(sig, "%s (%s)" % (d["text"], source), {"source": source, "origin": d.get("origin"), "sql": d.get("sql")})
+
+
+def run_uniq(chk, binp, wd, futs):
+    """futs: {idx: future of uniq_cases}; replays all case files in one store."""
+    files = []
+    ncases = 0
+    for idx, (path, fut) in futs.items():
+        res, n = fut.result()
+        chk.add_tlc(res, "SQLUniq index (%s): %d cases, Refused/Applied/NoDuplicates TRUE" % (",".join(idx), n))
+        files.append(path)
+        ncases += n
+    t0 = time.time()
+    dd = os.path.join(wd, "uniqd")
+    out, _ = vlib.run_harness(binp, ["-uniq", ",".join(files), "-dir", dd], timeout=1200)
+    r = json.loads(out)
+    devs = (r.get("extra") or {}).pop("deviations", None) or []
+    vlib.absorb(chk, r)
+    ctr = r.get("counters") or {}
+    # vacuity: every non-empty subset of the indexed columns was changed by UPDATE and by UPSERT, towards a colliding and a free tuple
+    for idx in futs:
+        cols = list(idx)
+        for mask in range(1, 1 << len(cols)):
+            m = "".join(c for c in "abd" if c in [cols[i] for i in range(len(cols)) if mask >> i & 1])
+            for kind in ("upd", "ups"):
+                for coll in ("collide", "free"):
+                    key = "uniq:target:%s:%s:%s:%s" % (idx, kind, m, coll)
+                    if not ctr.get(key):
+                        raise MachineryFault("vacuous: no composite-unique target statement executed for %s" % key)
+        if not ctr.get("uniq:target-outcome:%s:collide:err" % idx):
+            raise MachineryFault("vacuous: no colliding composite update was refused by the engine for index %s" % idx)
+    plain_report(chk, devs, "sqluniq", "composite unique index cases of SQLUniq.tla")
+    chk.cov["composite_unique"] = {"indexes": sorted(futs), "cases": ncases, "steps": r.get("evaluations", 0),
+                                   "targets": {k[len("uniq:target-outcome:"):]: v for k, v in ctr.items() if k.startswith("uniq:target-outcome:")}}
+    vlib.log("[uniq] %d cases replayed in %.1fs, %d deviations" % (ncases, time.time() - t0, len(devs)))
+
+
+# ------------------------------------------------------------------ catalog visibility across sessions (spec/SQLCat.tla)
+CAT_KINDS = ["begin", "commit", "rollback", "ins", "crUIdx", "crWIdx", "addCol", "crT2", "showcat", "sel"]
+CAT_INVS = ["CacheFresh", "NewTxFresh", "ConstraintsHold", "QuerySeesCommitted"]
+
+
+def cat_cfg(c, spec="Spec", invs=CAT_INVS, view=True):
+    out = "CONSTANTS\n" + "".join("  %s = %s\n" % (k, tla(v)) for k, v in c.items())
+    out += "SPECIFICATION %s\n" % spec + ("INVARIANTS " + " ".join(invs) + "\n" if invs else "") + ("VIEW View\n" if view else "")
+    return out + "CHECK_DEADLOCK FALSE\n"
+
+
+def cat_consts(**kw):
+    c = dict(NS=2, MaxId=2, UVals={"a"}, MaxStmts=4, Kinds=set(CAT_KINDS), CatQuirks=set(), EmitDepth=0)
+    c.update(kw)
+    return c
+
+
+def cat_design(name, c, workers):
+    res = vlib.run_tlc("SQLCat", "cat.cfg", workers=workers, timeout=900, files=[("cat.cfg", cat_cfg(c))], tag="sqlcat-mc", javaopts=JOPTS)
+    vlib.tlc_must_pass(res, "SQLCat design [%s]" % name)
+    return res
+
+
+def cat_broken(quirk, c):
+    """The protocol broken in the model: TLC must find the duplicate under the committed unique index; returns its statements."""
+    res = vlib.run_tlc("SQLCat", "cat.cfg", workers=1, timeout=600, files=[("cat.cfg", cat_cfg(dict(c, CatQuirks={quirk}), invs=["ConstraintsHold"]))],
+                       tag="sqlcat-code", javaopts=JOPTS)
+    if res.error or res.violation != "ConstraintsHold":
+        raise MachineryFault("SQLCat with %s: expected a ConstraintsHold counterexample, got %s %s" % (quirk, res.violation, res.error))
+    sts = [s["last"] for s in trace_states(res.out) if "last" in s]
+    return res, [{"s": x["s"], "k": x["k"], "id": x["id"], "u": x["u"]} for x in sts if x["k"] not in ("init", "end")]
+
+
+def cat_fix(steps):
+    for st in steps:
+        for f in ("res", "seen", "rows", "cat"):
+            if isinstance(st.get(f), dict):
+                st[f] = []
+    return steps
+
+
+def cat_simulate(c, num, seed):
+    c = dict(c, EmitDepth=1)
+    res = vlib.run_tlc("SQLCat", "cat.cfg", workers=1, timeout=600, javaopts=JOPTS, tag="sqlcat-sim",
+                       extra=["-simulate", "num=%d" % num, "-depth", str(c["NS"] * c["MaxStmts"] + 3), "-seed", str(seed)],
+                       files=[("cat.cfg", cat_cfg(c, spec="RSpec", invs=CAT_INVS + ["Emit"], view=False))])
+    if res.error or res.violation:
+        raise MachineryFault("SQLCat simulation: %s %s" % (res.error, res.violation))
+    bs = vlib.printed_json(res.out)
+    if len(bs) < num // 2:
+        raise MachineryFault("SQLCat simulation printed only %d behaviours" % len(bs))
+    return res, [{"origin": "tlc-simulate", "steps": cat_fix(b["steps"])} for b in bs]
+
+
+def cat_scripts(scripts):
+    """Design observations for given statement sequences: SQLCat driven by the scripts (generated extension module)."""
+    def lit(m):
+        return '[s |-> %d, k |-> "%s", id |-> %d, u |-> "%s"]' % (m["s"], m["k"], m["id"], m["u"])
+    mod = ("---- MODULE SQLCatScript ----\nEXTENDS SQLCat\nScripts == {%s}\n"
+           "Done == [i \\in 1..Len(hist) |-> [s |-> hist[i].s, k |-> hist[i].k, id |-> hist[i].id, u |-> hist[i].u]]\n"
+           "SNext == \\/ \\E sc \\in Scripts : /\\ Len(hist) < Len(sc) /\\ SubSeq(sc, 1, Len(hist)) = Done\n"
+           "                                 /\\ LET m == sc[Len(hist) + 1] IN Step(m.s, St(m.k, m.id, m.u))\n"
+           "         \\/ (Done \\in Scripts /\\ last.k # \"end\" /\\ last' = [last EXCEPT !.k = \"end\"] /\\ UNCHANGED <<cat, cver, rows, cache, ever, sess, hist>>)\n"
+           "SSpec == Init /\\ [][SNext]_vars\n====\n") % ", ".join("<<" + ", ".join(lit(m) for m in sc) + ">>" for sc in scripts)
+    ns = max(m["s"] for sc in scripts for m in sc)
+    c = cat_consts(NS=ns, MaxId=3, UVals={"a", "b"}, MaxStmts=1000, EmitDepth=1)
+    res = vlib.run_tlc("SQLCatScript", "cat.cfg", workers=1, timeout=600, javaopts=JOPTS, tag="sqlcat-script",
+                       files=[("SQLCatScript.tla", mod), ("cat.cfg", cat_cfg(c, spec="SSpec", invs=CAT_INVS + ["Emit"], view=False))])
+    vlib.tlc_must_pass(res, "SQLCat scripted (design observations of the broken-protocol counterexamples)")
+    bs = [cat_fix(b["steps"]) for b in vlib.printed_json(res.out)]
+    if len(bs) != len(scripts):
+        raise MachineryFault("SQLCat scripted: %d of %d scripts completed in the design" % (len(bs), len(scripts)))
+    return res, bs
+
+
+def run_cat(chk, binp, wd, fut_design, fut_broken, fut_sim):
+    behaviours = []
+    scripts = []
+    for quirk, fut in fut_broken:
+        res, stmts = fut.result()
+        chk.add_tlc(res, "SQLCat protocol broken in the model (%s) -> ConstraintsHold violated after %d steps" % (quirk, len(stmts)))
+        scripts.append((quirk, stmts))
+    res, bs = cat_scripts([s for _, s in scripts])
+    chk.add_tlc(res, "SQLCat scripted design run")
+    for steps in bs:
+        q = [q for q, s in scripts if [(m["s"], m["k"], m["id"], m["u"]) for m in s] == [(m["s"], m["k"], m["id"], m["u"]) for m in steps]]
+        behaviours.append({"origin": "tlc-counterexample-of-broken-protocol:%s" % (q[0] if q else "?"), "steps": steps})
+    for fut in fut_sim:
+        res, b = fut.result()
+        chk.add_tlc(res, "SQLCat -simulate")
+        behaviours += b
+    for name, fut in fut_design:
+        chk.add_tlc(fut.result(), "SQLCat design [%s]" % name)
+    t0 = time.time()
+    p = os.path.join(wd, "cat.json")
+    json.dump({"behaviours": behaviours}, open(p, "w"))
+    out, _ = vlib.run_harness(binp, ["-cat", p, "-dir", os.path.join(wd, "catd")], timeout=1200)
+    r = json.loads(out)
+    devs = (r.get("extra") or {}).pop("deviations", None) or []
+    vlib.absorb(chk, r)
+    ctr = r.get("counters") or {}
+    for need in ("cat:pattern:cold-open+concurrent-ddl+empty-commit", "cat:pattern:...then-insert", "cat:crUIdx:ok", "cat:showcat:ok", "cat:commit:conflict"):
+        if not ctr.get(need):
+            raise MachineryFault("vacuous: catalog behaviours never reached %s on the real engine" % need)
+    plain_report(chk, devs, "sqlcat", "catalog behaviours of SQLCat.tla on one sql.Engine")
+    chk.cov["catalog_visibility"] = {"behaviours": len(behaviours), "steps": r.get("evaluations", 0),
+                                     "cold_open_concurrent_ddl_empty_commit": ctr.get("cat:pattern:cold-open+concurrent-ddl+empty-commit", 0),
+                                     "then_insert": ctr.get("cat:pattern:...then-insert", 0)}
+    vlib.log("[cat] %d behaviours replayed in %.1fs, %d deviations" % (len(behaviours), time.time() - t0, len(devs)))
+
+
+
+
 # ------------------------------------------------------------------ the two profiles
 def profile(pid, tier):
     """Bounds per property and tier, fitted to measured state counts (quick: each exhaustive run < 10^5 generated states)."""
@@ -293,7 +475,18 @@ def profile(pid, tier):
         ]
         if thorough:
             sim += [(consts(NS=2, MaxStmts=8, Kinds=set(ALLKINDS) - {"crIdx"}), 800)]
-        return {"design": design, "code": [x for x in code if x[0] not in FIXEDQ], "sim": sim}
+        # composite unique indexes: index variants (column order matters: which column is the leading one) and histories
+        uniq = ([("ab", UNIQ_HIST_ALL), ("ba", UNIQ_HIST_ALL), ("abd", UNIQ_HIST_ALL), ("dab", UNIQ_HIST_ALL), ("bda", UNIQ_HIST_ALL)] if thorough else
+                [("ba", UNIQ_HIST_ALL), ("dab", {"plain", "other-updated", "after-delete", "other-in-tx", "null"})])
+        # catalog visibility across sessions
+        cat = {"design": [("2 sessions x 4: begin/commit/rollback, insert, create unique index, add column, catalog query",
+                           cat_consts(NS=2, MaxStmts=4, Kinds={"begin", "commit", "rollback", "ins", "crUIdx", "addCol", "showcat"}), 3)] +
+                         ([("3 sessions x 3, all DDL kinds", cat_consts(NS=3, MaxStmts=3, MaxId=2), 8),
+                           ("2 sessions x 5", cat_consts(NS=2, MaxStmts=5, Kinds={"begin", "commit", "ins", "crUIdx", "crWIdx", "showcat", "sel"}), 8)] if thorough else []),
+               "broken": [("populate_ignores_version", cat_consts(NS=2, MaxStmts=4, Kinds={"begin", "commit", "ins", "crUIdx"})),
+                          ("no_invalidate", cat_consts(NS=1, MaxStmts=5, Kinds={"ins", "crUIdx", "showcat"}))],
+               "sim": [(cat_consts(NS=3, MaxId=3, UVals={"a", "b"}, MaxStmts=4), 600 if thorough else 90)]}
+        return {"design": design, "code": [x for x in code if x[0] not in FIXEDQ], "sim": sim, "uniq": uniq, "cat": cat}
     design = [
         ("savepoints (2 names, nesting, re-use), 1 session x 7", consts(NS=1, MaxStmts=7, VVals={"p"}, ExplIds={1}, TxSessions={1},
                                                                     Kinds={"begin", "commit", "sp", "rbto", "rel", "insA", "del"}), 3),
@@ -333,10 +526,17 @@ def run_sqltx(chk, args):
 
     # 1. design, exhaustive; 2. code as transcribed, one quirk at a time; 3. simulation of the design (all in parallel)
     t0 = time.time()
-    with cf.ThreadPoolExecutor(int(os.environ.get("VERIF_PAR", "5"))) as ex:
+    with cf.ThreadPoolExecutor(int(os.environ.get("VERIF_PAR", "8"))) as ex:
         fd = [(name, ex.submit(mc_design, name, c, w)) for name, c, w in prof["design"]]
         fc = [(name, c, ex.submit(mc_code, name, c, expect)) for name, c, expect in prof["code"]]
         fs = [(c, num, ex.submit(simulate, c, num, chk.seed * 1000 + i)) for i, (c, num) in enumerate(prof["sim"])]
+        fu = {idx: (os.path.join(wd, "uniq_%s.json" % idx), ex.submit(uniq_cases, idx, hists, os.path.join(wd, "uniq_%s.json" % idx)))
+              for idx, hists in prof.get("uniq", [])}
+        pc = prof.get("cat")
+        if pc:
+            fcd = [(name, ex.submit(cat_design, name, c, w)) for name, c, w in pc["design"]]
+            fcb = [(q, ex.submit(cat_broken, q, c)) for q, c in pc["broken"]]
+            fcs = [ex.submit(cat_simulate, c, num, chk.seed * 1000 + 50 + i) for i, (c, num) in enumerate(pc["sim"])]
         cex = []
         for name, c, fut in fc:
             res, stmts = fut.result()
@@ -401,6 +601,11 @@ def run_sqltx(chk, args):
         report(chk, devs, who, "replay through the PostgreSQL wire front-end")
         chk.cov["pgwire"] = {"behaviours": nb, "steps": r.get("evaluations", 0), "deviations": len(devs)}
         vlib.log("[pgwire] %d behaviours %.1fs, %d deviations" % (nb, time.time() - t0, len(devs)))
+    # 5b. C12: composite unique indexes (directed enumeration) and catalog visibility across the sessions of one engine
+    if fu:
+        run_uniq(chk, binp, wd, fu)
+    if pc:
+        run_cat(chk, binp, wd, fcd, fcb, fcs)
     # 6. trace validation
     t0 = time.time()
     thorough = chk.tier == "thorough"
